@@ -2,7 +2,7 @@
    equal to the hand-written models the property theorems talk about.  If the source changes so that the
    generated term differs semantically, these proofs stop going through: that is the signal. *)
 From Coq Require Import Lia.
-From PV Require Import Model.Prelude Model.Bits Model.Sig Model.Matcher Model.Select Model.Uptime Model.Mtu Gen.Generated.
+From PV Require Import Model.Prelude Model.Bits Model.Sig Model.Matcher Model.Select Model.Uptime Model.Mtu Model.Text Model.SigParse Model.DbParse Model.HttpRead Model.HttpMatch Gen.Generated.
 
 Lemma find_ext_local {A} (f g : A -> bool) l : (forall x, f x = g x) -> find f l = find g l.
 Proof. intros H. induction l as [|a l IH]; cbn [find]; [reflexivity|]. rewrite H, IH. reflexivity. Qed.
@@ -120,6 +120,34 @@ Qed.
 Theorem gen_distance_eq m p : gen_distance m p = distance m p.
 Proof. unfold gen_distance, distance. destruct m as [[[| |] r]|]; cbn [fst snd Generated.mtype_eqb]; reflexivity. Qed.
 
+(* HTTP: record selection, software string, dishonest flag *)
+Theorem gen_find_http_match_eq ver hs recs : gen_find_http_match ver hs recs = find_http_loop ver hs recs None.
+Proof.
+  unfold gen_find_http_match. cbv zeta.
+  match goal with |- ?F recs None = _ =>
+    assert (forall l g, F l g = find_http_loop ver hs l g) as H; [|apply H] end.
+  induction l as [|r rest IH]; intros g; [reflexivity|].
+  cbn [find_http_loop]. cbv beta iota fix. fold (find_http_loop ver hs).
+  destruct (rec_matches ver hs r); cbn [negb]; [|apply IH].
+  destruct (is_generic (rc_label r)); cbn [negb]; [|reflexivity].
+  destruct g; apply IH.
+Qed.
+
+Theorem gen_software_eq hs : gen_software hs = software hs.
+Proof. reflexivity. Qed.
+
+Theorem gen_dishonest_eq m hs : gen_dishonest m hs = dishonest m hs.
+Proof.
+  unfold gen_dishonest, dishonest. rewrite gen_software_eq.
+  destruct m as [r|]; [|reflexivity].
+  destruct (software hs) as [sw|]; [|reflexivity].
+  destruct (http_of r) as [sg|]; [|reflexivity].
+  destruct (hs_software sg); reflexivity.
+Qed.
+
+Print Assumptions gen_find_http_match_eq.
+Print Assumptions gen_software_eq.
+Print Assumptions gen_dishonest_eq.
 Print Assumptions gen_distance_eq.
 Print Assumptions gen_find_tcp_match_eq.
 Print Assumptions gen_find_mtu_match_eq.
